@@ -239,7 +239,7 @@ def check_C07(tier, seed):
         o.add(D.run_batch(exe, n if i == 0 else n // 4, tier, seed, label='stream@%s-%s' % (be, fl), crash_prop='C12'))
     if tier == 'thorough' or os.environ.get('VERIF_HUGE'):
         # one absorb call of more than 2^32 bytes per run (tens of seconds each): 18 runs over the nine families
-        o.add(D.run_batch(world_exe('stream', 'asm', (4, 2, 4), 'rel'), 18, tier, seed, env={'ASIM_HUGE': '1'}, label='stream@asm-rel-huge', crash_prop='C12', chunk=1))
+        o.add(D.run_batch(world_exe('stream', 'asm', (4, 2, 4), 'rel'), 18, tier, seed, env={'ASIM_HUGE': '1'}, label='stream@asm-rel-huge', crash_prop='C12', chunk=1, spawn_timeout=3600))
     o.extra['distinct_states_measure'] = ('visited (op, algorithm, variant/phase, bytes-in-block before the call, '
                                           'chunk-length class[, in-place]) tuples of the stream world')
     return o.finish()
@@ -272,7 +272,7 @@ def check_C02(tier, seed):
     if tier == 'thorough' or os.environ.get('VERIF_HUGE'):
         # one packet with 2^32+11 bytes of associated data per run (tens of seconds to minutes each): the 12 one-shot,
         # SIV, ISAP and masked families
-        o.add(D.run_batch(world_exe('channel', 'asm', (4, 2, 4), 'rel'), 24, tier, seed, env={'ASIM_HUGE': '1'}, label='channel@asm-rel-hugead', crash_prop='C12', chunk=1))
+        o.add(D.run_batch(world_exe('channel', 'asm', (4, 2, 4), 'rel'), 24, tier, seed, env={'ASIM_HUGE': '1'}, label='channel@asm-rel-hugead', crash_prop='C12', chunk=1, spawn_timeout=3600))
     o.extra['distinct_states_measure'] = 'visited (event kind, family class, fault kind, accept/reject, length class) tuples'
     return o.finish()
 
